@@ -172,8 +172,15 @@ def selements_loop(mid):
 def u_get_Selements(I):
     ctx = I.ctx
     o, n, CorrAt, CountAt = C01.mk_estimate(I)
-    name = o.fields['name']
-    mid = chem.AddHsId(chem.MolFromSmilesId(name))
+    # the structure the estimate carries is what GetDescriptors was given: a SMILES string, or a molecule object
+    if ctx.choose([True, True], 'structure given as a string / as a molecule object') == 0:
+        name = o.fields['name']
+        mid = chem.AddHsId(chem.MolFromSmilesId(name))
+    else:
+        m_in = I.fresh('mol_given', 'int')
+        o.fields['name'] = Obj(chem.MolCls, {'mid': m_in}, 'param')
+        I.world.externs['rdkit.Chem'].members.setdefault('Mol', chem.MolCls)
+        mid = chem.AddHsId(m_in)
     ctx.assume(SeleSum(mid, 0) == 0)
     jj = z3.Int('j!s')
     ctx.assume_forall([jj], z3.Implies(z3.And(0 <= jj, jj < chem.NumAtoms(mid)),
